@@ -9,6 +9,7 @@ import (
 	"fmt"
 	"os"
 	"runtime/debug"
+	"runtime/pprof"
 	"sort"
 
 	"gcv/internal/core"
@@ -49,12 +50,19 @@ func main() {
 		fmt.Printf("replay of %v rule %v instance %v\n  recorded at %v: %v\n  re-running the property on the current tree:\n", m["property"], m["rule"], m["instance"], m["where"], m["detail"])
 		*prop, _ = m["property"].(string)
 	}
+	if pf := os.Getenv("GCV_CPUPROFILE"); pf != "" {
+		f, _ := os.Create(pf)
+		pprof.StartCPUProfile(f)
+		defer pprof.StopCPUProfile()
+	}
 	fn, ok := props.Registry[*prop]
 	if !ok {
 		fmt.Fprintf(os.Stderr, "unknown property %q\n", *prop)
 		os.Exit(2)
 	}
-	os.Exit(runOne(*prop, *tier, fn))
+	code := runOne(*prop, *tier, fn)
+	pprof.StopCPUProfile()
+	os.Exit(code)
 }
 
 func runOne(id, tier string, fn props.CheckFunc) (code int) {
